@@ -101,6 +101,13 @@ func wmap(kv ...string) string {
 
 func ws(s string) string { return "S" + hx([]byte(s)) }
 
+func tf(b bool) string {
+	if b {
+		return "T"
+	}
+	return "F"
+}
+
 // rowValues: wire values of every kind a caller puts in a row
 var rowValues = []string{"D+:10:0", "D+:9:0", "D+:2:0", "D-:5:-1", "D+:0:0", "D+:100:-1", "D+:1234567890123456789012345678901234:3", "Dnan", "Dinf",
 	"S" + "3130", "S" + "39", "S" + "32", "S" + "61", "S" + "", "S" + "41", "N", "T", "F", "Ii:10", "Ii:9", "Ii8:-3", "G322e35", "A2 Ii:1 Ii:2", "A0"}
@@ -154,6 +161,9 @@ func randOperand(r *rand.Rand) string {
 	e := r.Intn(61) - 30
 	if r.Intn(3) == 0 {
 		e = r.Intn(5) - 2
+	}
+	if r.Intn(12) == 0 { // beyond the range of float64, well inside decimal128
+		e = []int{-400, -345, -324, -323, -309, -308, -307, 290, 307, 308, 309, 400}[r.Intn(12)]
 	}
 	lit := s
 	if e != 0 {
@@ -534,6 +544,22 @@ func suiteCompare(o *Out, thorough bool, seed int64) {
 	if thorough {
 		n = 200000
 	}
+	// strings across the encoding classes of UTF-8 (1 to 4 bytes, the edges of each class, the gap left by the
+	// surrogates, private use and specials above it, the supplementary planes) and invalid bytes: all ordered pairs
+	{
+		pool := []string{"", "a", "\x7f", "\u0080", "\u07ff", "\u0800", "\ud7ff", "\ue000", "\uf8ff", "\ufb01", "\uff5e", "\ufffd", "\uffff", "\U00010000", "\U0001d11e", "\U0001f600", "\U0010ffff",
+			"\xff", "\xc3", "\xed\xa0\x80", "\xf0\x9f", "a\uff5e", "a\U0001f600", "\uff5ea", "\U0001f600a", "Z", "z", "\u00e9"}
+		for _, a := range pool {
+			for _, b := range pool {
+				data := wmap("a", ws(a), "b", ws(b))
+				got := resultOf(emitEval(o, "[a < b, a > b, a <= b, a >= b, a == b]", 0, "-", data, true))
+				want := fmt.Sprintf("V A5 %s %s %s %s %s", tf(a < b), tf(a > b), tf(a <= b), tf(a >= b), tf(a == b))
+				if got != want {
+					o.Fail(fmt.Sprintf("EV\t%s\t0\t-\t%s", hx([]byte("[a < b, a > b, a <= b, a >= b, a == b]")), data), fmt.Sprintf("strings %q and %q do not compare in byte-wise lexicographic order: %s, required %s", a, b, got, want))
+				}
+			}
+		}
+	}
 	rowsBlock(o, r, []string{"a < b", "a > b", "a <= b", "a >= b", "a == b", "a != b", "a === b", "a !== b", "[a < b, a == b, a > b]", "a < b ? 'lt' : a > b ? 'gt' : 'no'", "min(a, b) <= max(a, b)"}, 60)
 	for i := 0; i < n; i++ {
 		a, b := randOperand(r), randOperand(r)
@@ -548,6 +574,7 @@ func suiteCompare(o *Out, thorough bool, seed int64) {
 // ---------- C06 ----------
 
 var truthConds = []string{"null", "true", "false", "0", "-0", "0.0", "0e5", "1", "-1", "0.1", "toFloat('x')", "(1/0)", "(-1/0)",
+	"1e-400", "5e-309", "(-3/1e350)", "(1e-200*1e-200)", "4e-324", "1e-900", "0e-900", "1e400", "(-1e309)", "0.0000000000000000000000000000000001",
 	"''", "'0'", "' '", "'a'", "[]", "[0]", "arr", "emp", "m", "em", "t", "fn", "np", "zz", "len", "ctx", "z8"}
 
 func suiteTruthy(o *Out, thorough bool, seed int64) {
@@ -657,6 +684,9 @@ func suiteLocals(o *Out, thorough bool, seed int64) {
 		"[$a = 1, $a + 1, $a = 5, $a]", "f($a = 2, $a)", "$c", "$a, $a = 1", "($a = 1) + ($a = 2) + $a", "$a = x, x", "g($a = 1, $a = 2, $a)",
 		"true ? $a = 1 : $b = 2", "$a = [1,2], $a", "$a = y, $a", "$b", "$b = $b + 1", "this.$b", "$a = null, $a", "x = ($a = 1)", "$a = (1, 2)", "$a = 1 ? 2 : 3",
 		"y", "z", "f(y, z)", "$a = y, $b = z, [$a, $b]",
+		"$h = f, $h($h = g, 1)", "$h = f, $h(1, $h = g), $h", "$h = g, $h($h = f)", "$m = this, $m.f($m = null, 2)", "$h = f, [$h(1, 2), $h = g, $h(3)]",
+		"n!.f($a = 1), $a", "n!.f($a = 1)", "n.f($a = 1), $a", "nope!.k.f(g($a = 2)), $a", "(n!.f)($a = 1)", "x($a = 1), $a", "'s'($a = 1), $a", "nofn($a = 1, g(2)), $a",
+		"f($a = 1, n!.k, $b = 2), [$a, $b]", "f(g($a = 1), $a), $a", "[n!.k, $a = 1], $a", "$a = 1, f($a, $a = 2, $a), $a",
 		"$a = 5, $b = -$a, $a", "$a = 1, -$a, $a", "[$a = 2, -$a, +$a, ~$a, !$a, $a]", "-p, p", "$n = -p, p * 2", "-q, q", "abs(q), q", "$a = p, -$a, [p, $a]",
 		"$a = 2.5, round($a), $a", "round(p), p", "ceil(p), floor(p), p", "$a = 3, $a + 1, $a * 2, -$a, $a", "f(-p, p)", "toString(-p) + toString(p)", "max(p, q), min(p, q), [p, q]"}
 	for _, d := range datas {
@@ -882,8 +912,26 @@ func suiteFields(o *Out, thorough bool, seed int64) {
 		emit(strings.Join(parts, " "))
 	})
 	o.Notes = append(o.Notes, fmt.Sprintf("exhaustive: every accepted sequence of up to %d lexemes over an 18-lexeme alphabet", k))
+	// names that differ in letter case only, prefixes of one another, repeated in every interleaving
+	{
+		nm := []string{"Total", "total", "TOTAL", "$Sum", "$sum", "row.Qty", "row.qty", "row", "Row.Qty", "tot", "totals", "a.b", "a.B", "a.b.c"}
+		enumSeq(len(nm), 3, func(idx []int) {
+			if len(idx) < 2 {
+				return
+			}
+			var parts []string
+			for _, i := range idx {
+				parts = append(parts, nm[i])
+			}
+			emit(strings.Join(parts, " + "))
+			if len(idx) == 3 {
+				emit(parts[0] + " > 0 ? " + parts[1] + " : f(" + parts[2] + ", " + parts[0] + ")")
+			}
+		})
+		emit("$Sum = a, $sum = b, $Sum + $sum")
+	}
 	r := newRand(seed, "fields")
-	g := &gen{r: r, idents: []string{"a", "b", "c", "a.b", "a.b.c", "b.x"}, funcs: []string{"f", "g.h", "a.f", "len"}, lits: []string{"1", "'s'", "null", "$c", "$d", "[a, b.x]", "(a).b", "f(a).b"}}
+	g := &gen{r: r, idents: []string{"a", "b", "c", "a.b", "a.b.c", "b.x", "A", "a.B", "B.x", "ab"}, funcs: []string{"f", "g.h", "a.f", "len"}, lits: []string{"1", "'s'", "null", "$c", "$d", "$C", "[a, b.x]", "(a).b", "f(a).b"}}
 	n := 5000
 	if thorough {
 		n = 200000
@@ -985,7 +1033,7 @@ func sufficiencyOracle(o *Out, line, text, obs string) {
 
 // ---------- C11 ----------
 
-var bridgeArgVals = []string{"N", "T", "F", "Ii:0", "Ii:5", "D-:25:-1", "D+:3:0", "D+:12345678901:0", "D+:9007199254740993:0", "D-:9223372036854775807:0", "D+:1234567890123456789:-1", ws(""), ws("txt"), ws("12"),
+var bridgeArgVals = []string{"N", "T", "F", "Ii:0", "Ii:5", "D-:25:-1", "D+:3:0", "D+:12345678901:0", "D+:9007199254740993:0", "D-:9223372036854775807:0", "D+:1234567890123456789:-1", "D+:99999999999999999999:-20", "D-:4199999999999999999999:-20", "D+:45035996273704975:-1", "D+:675539944105574375:-2", "D+:12345678901234567:-3", "D+:9007199254740993:-5", "D+:1000000000000000055511151231257827:-34", "D+:29999999999999999999:-19", ws(""), ws("txt"), ws("12"),
 	"A0", "A2 D+:1:0 D+:2:0", "A2 " + ws("a") + " " + ws("b"), "A2 D+:1:0 N", wmap("k", "D+:1:0"), "O0", "M1700000000000000000:0", "P", "G" + hx([]byte("1.5")), "Iu8:7"}
 
 var bridgeTypes = []string{"s", "b", "i", "i8", "i16", "i32", "i64", "f32", "f64", "a", "d", "t", "[s", "[d", "[a", "[i", "{a", "{s", "u8", "Ns", "Nb", "Ni", "Ni32", "Ni64", "Nf32", "Nf64", "Na", "N[s", "[Ns", "[Ni64", "{Ns"}
